@@ -123,6 +123,14 @@ def c14_group(d):
 PROPS["C14"] = {
     "theorems": [
         "Lace.C14.parse_integer_eq_grammar",
+        "Lace.C14.split_argument_eq_split_stdin",
+        "Lace.C14.read_no_panic",
+        "Lace.C14.session_eq_lines",
+        "Lace.C14.transport_independent",
+        "Lace.C14.transport_independent_semicolon",
+        "Lace.C14.transport_independent_argument_only",
+        "Lace.C14.separators_equivalent",
+        "Lace.C14.swapSeparators_ok",
     ],
     "compare": cmp_default,
     "classify": c14_classify,
